@@ -67,6 +67,42 @@ static void legacy(int per, bool autoi, double mn, double mx, long n, const std:
   fflush(stdout);
 }
 
+// legacy Histogram with the bond / angle scalings and normalisation on: the integral (sum times interval) has to be one
+static void legacy_norm(const std::string &scale, double mn, double mx, long n, const std::vector<double> &vs) {
+  tools::DataCollection<double> dc;
+  auto *arr = dc.CreateArray("a");
+  for (double v : vs) arr->push_back(v);
+  tools::DataCollection<double>::selection sel;
+  sel.push_back(arr);
+  tools::Histogram::options_t op;
+  op.n_ = n;
+  op.auto_interval_ = false;
+  op.extend_interval_ = false;
+  op.min_ = mn;
+  op.max_ = mx;
+  op.periodic_ = false;
+  op.normalize_ = true;
+  op.scale_ = scale;
+  tools::Histogram h(op);
+  h.ProcessData(&sel);
+  printf("C13 legacynorm %s %s %s %ld %zu", scale.c_str(), dexact(mn).c_str(), dexact(mx).c_str(), n, vs.size());
+  for (long i = 0; i < n; i++) printf(" %s", dexact(h.getPdf()[i]).c_str());
+  printf("\n");
+  fflush(stdout);
+}
+
+static void legacy_norm_case(Rng &r) {
+  static const char *scales[] = {"no", "bond", "angle"};
+  std::string scale = scales[r.below(3)];
+  long n = 5 + (long)r.below(40);
+  double mn, mx;
+  std::vector<double> vs;
+  long cnt = r.coin(1, 3) ? 2000 + (long)r.below(3000) : 20 + (long)r.below(400);
+  if (scale == "angle") { mn = 0.2; mx = 2.9; for (long i = 0; i < cnt; i++) vs.push_back(0.25 + r.unit() * 2.6); }
+  else { mn = r.coin() ? 0.1 : 3.0; mx = mn + 0.5 + r.unit() * 11; for (long i = 0; i < cnt; i++) vs.push_back(mn + r.unit() * (mx - mn)); }
+  legacy_norm(scale, mn, mx, n, vs);
+}
+
 static double pick_w(Rng &r) {
   int k = (int)r.below(8);
   if (k == 0) return 0.0;
@@ -169,6 +205,7 @@ int main(int argc, char **argv) {
     if (k < 5) exact_case(r, false);
     else if (k < 6) exact_case(r, true);
     else if (k < 8) generic_case(r);
+    else if (r.coin(1, 3)) legacy_norm_case(r);
     else legacy_case(r);
   }
   return 0;
